@@ -19,22 +19,33 @@ from vlib.common import Rng
 
 CLAIMED = True
 LEVEL = "proof"
-TECHNIQUE = ("Lean 4 invariant proofs over allocation-explicit models (ledger of live blocks, refusal at any request "
-             "index) of XalanVector/XalanList/XalanConstruct/reserve-before-create, tied to the code by lock-step "
-             "replay of the real templates under a failing MemoryManager; plus exhaustive fault-index enumeration of "
-             "the XalanTransformer API (one child process per index) evaluated against the specification predicate")
-LEVEL_TEXT = ("Machine-checked: for every operation history and every refused request index the modelled containers "
-              "keep `live = owned + frame`, never free a block they do not own, stay destructible and return every "
-              "block in the destructor (Props/C19.lean; `_partial`: containers, guards and idioms only; the lazily "
-              "allocated list sentinel and the uninitialised free-list link are proved as counterexamples of the "
-              "code as written). The ~1000 allocation sites of a transformation are covered by enumeration, not by "
-              "theorem: every index of every phase of the fixed scenarios is refused once on the real library.")
-LEVEL_NOTE = ("Trusted: Lean kernel; axioms propext/Classical.choice/Quot.sound only; hand transcription of "
-              "XalanVector.hpp/XalanList.hpp/XalanMemoryManagement.hpp allocation paths (checked by the container "
-              "correspondence for every refusal index, bounded by generator coverage); the fault-injecting manager "
-              "and process-level observation in harness/c19_memmgr.cpp. Modelled, not verified: XalanMap, XalanDeque, "
-              "arena allocators and all XSLT/XPath classes are reached only by the fault enumeration (fixed scenario "
-              "set, exhaustive in k); element construction is abstracted to 'one allocation that may be refused'.")
+TECHNIQUE = ("Lean 4 invariant proofs (every history, every refusal index, every frame of foreign blocks) over allocation-explicit "
+             "models of the library's allocation building blocks -- XalanVector with and without allocating elements, XalanList, "
+             "ReusableArenaBlock and the allocate/construct/commit protocol, destroyObject of the arena block list, XalanMemMgrAutoPtr, "
+             "XalanConstruct/XalanAllocationGuard, reserve-before-create -- each tied to the working tree by lock-step replay of the "
+             "real templates under a counting/failing MemoryManager for every refusal index; the library as a whole is covered by "
+             "exhaustive fault-index ENUMERATION (not proof) of the XalanTransformer API: every allocation index of every phase of a "
+             "fixed scenario set refused once in its own process, evaluated against the specification predicate")
+LEVEL_TEXT = ("PROVED (Props/C19.lean, kernel-checked, unbounded): with a ledger of outstanding blocks in which request number k is "
+              "refused for an arbitrary k, the modelled vectors (also with elements whose copy allocates, including every index inside "
+              "the element-copy loops), lists, arena blocks and auto pointers keep live = owned + frame, never free a block they do "
+              "not own, stay destructible after any refusal and return every block in their destructors; destroyObject of the arena "
+              "block list and the destructors/clear of lists make no allocation request; XalanConstruct and reserve-before-create are "
+              "exception-neutral. The defects of the original code are proved as counterexamples. Names ending _partial say what is "
+              "missing (one arena block, lists only). ENUMERATED, NOT PROVED: the ~1000-7000 allocation sites of a transformation -- for "
+              "11 fixed scenarios every allocation index of ctor/compile/parse/transform/destroy is refused once on the real library "
+              "(exhaustive in the index, not in scenarios) and process survival, double/foreign frees, surfacing of the failure, balance "
+              "at destruction (also of the compiled stylesheet alone) and a fresh transformer are checked; recorded traces are judged by "
+              "the Lean ledger.")
+LEVEL_NOTE = ("Trusted: Lean kernel; axioms propext/Classical.choice/Quot.sound only; the hand transcriptions of XalanVector.hpp, "
+              "XalanList.hpp, XalanDeque.hpp (push path), ReusableArenaBlock.hpp, ReusableArenaAllocator.hpp, XalanMemMgrAutoPtr.hpp and "
+              "XalanMemoryManagement.hpp (each checked by the container correspondence for every refusal index, bounded by generator "
+              "coverage; element construction abstracted to 'one allocation that may be refused'); the fault-injecting manager, the "
+              "per-index child processes and the stack symbolisation of harness/c19_memmgr.cpp; the behaviour probes that select the "
+              "model configuration. Modelled, not verified / not modelled at all: XalanMap, deque pop/clear, allocating values in "
+              "deques and maps, the arena block list apart from destroyObject's request-freedom, two-phase initialize, and every "
+              "XSLT/XPath class -- these are reached only by the fault enumeration over the scenario set gen/corpus/c19, whose verdict "
+              "is a complete finite enumeration per scenario, not a theorem.")
 DESIGN_REF = "DESIGN.md section 5, C19; design/C19.md"
 
 THEOREMS = [
@@ -55,6 +66,7 @@ THEOREMS = [
     "XalanModel.Props.C19.deque_null_block_counterexample",
     "XalanModel.Props.C19.arena_destroyObject_makes_no_request",
     "XalanModel.Props.C19.arena_push_then_erase_allocates_counterexample",
+    "XalanModel.Props.C19.autoptr_balanced_and_failure_contained",
     "XalanModel.Props.C19.guard_idiom_sound",
     "XalanModel.Props.C19.reserve_before_create_sound",
     "XalanModel.Props.C19.create_then_push_leaks_counterexample",
@@ -229,6 +241,19 @@ def gen_ra_ops(r, n):
     return ops
 
 
+def gen_ap_ops(r, n):
+    """two XalanMemMgrAutoPtr<Thing> and the raw pointers the caller got from release()"""
+    ops = []
+    for _ in range(n + 2):
+        k = r.weighted([("make", 6), ("move", 3), ("release", 2), ("reset", 2)])
+        if k == "move":
+            ops.append("ap move %d %d" % (r.below(2), r.below(2)))
+        else:
+            ops.append("ap %s %d" % (k, r.below(2)))
+    ops.append("ap destroy")
+    return ops
+
+
 def gen_deque_ops(r, n):
     ops = ["d new %d" % r.range(1, 3)]
     for _ in range(n):
@@ -290,7 +315,7 @@ def container_part(ctx, r, model):
     seqs = [(k, ops) for k, ops in CONTAINER_CORPUS]
     base = []
     for i in range(nseq):
-        ops = (gen_list_ops, gen_vec_ops, gen_arena_ops, gen_deque_ops, gen_bvec_ops, gen_ra_ops)[i % 6](r, r.range(1, maxops))
+        ops = (gen_list_ops, gen_vec_ops, gen_arena_ops, gen_deque_ops, gen_bvec_ops, gen_ra_ops, gen_ap_ops)[i % 7](r, r.range(1, maxops))
         base.append(ops)
     for ops in base:
         # every refusal index: an op makes at most 3 requests (+1 sentinel)
@@ -302,14 +327,38 @@ def container_part(ctx, r, model):
             top = min(top, 120)
         for k in range(0, top):
             seqs.append((k, ops))
-    lines, owner = ["cfg %d %d %d %d" % (clear_guard, next_init, skip_pending, pop_null)], [-1]
+    # The request stream is split into chunks (each starts with the cfg line) that run on a few workers, each with a
+    # timeout proportional to its size: a loaded machine slows every forked probe, and one long stream with one fixed
+    # timeout made the whole correspondence time out.
+    cfg_line = "cfg %d %d %d %d" % (clear_guard, next_init, skip_pending, pop_null)
+    chunk_lines_max = 6000
+    chunks, cur, cur_owner = [], [cfg_line], [-1]
     for si, (k, ops) in enumerate(seqs):
+        if len(cur) + len(ops) + 1 > chunk_lines_max and len(cur) > 1:
+            chunks.append((cur, cur_owner)); cur, cur_owner = [cfg_line], [-1]
         for o in ["new %d" % k] + ops:
-            lines.append(o); owner.append(si)
-    req = os.path.join(work, "containers_%d.req" % ctx.seed)
-    with open(req, "w") as f:
-        f.write("\n".join(lines) + "\n")
-    il, ml, irc, mrc, ierr, merr = common.run_pair([harness], [model], req, impl_env=env)
+            cur.append(o); cur_owner.append(si)
+    if len(cur) > 1:
+        chunks.append((cur, cur_owner))
+
+    def run_chunk(ci):
+        cl, _ = chunks[ci]
+        req = os.path.join(work, "containers_%d_%d.req" % (ctx.seed, ci))
+        with open(req, "w") as f:
+            f.write("\n".join(cl) + "\n")
+        return common.run_pair([harness], [model], req, impl_env=env, timeout=300 + len(cl) // 2)
+
+    from concurrent.futures import ThreadPoolExecutor
+    with ThreadPoolExecutor(max_workers=max(2, min(6, common.NPROC // 3))) as ex:
+        results = list(ex.map(run_chunk, range(len(chunks))))
+    lines, owner, il, ml, ierr = [], [], [], [], ""
+    for (cl, co), (cil, cml, irc, mrc, cierr, merr) in zip(chunks, results):
+        # pad a chunk that stopped early so that line numbers stay aligned; the gap is reported below
+        lines += cl; owner += co
+        il += cil + [None] * (len(cl) - len(cil)); ml += cml + [None] * (len(cl) - len(cml))
+        if len(cil) < len(cl):
+            ierr = cierr
+    ctx.hist["container:chunks"] = len(chunks)
     agree, disagreements = True, []
     seen_bad = set()
     for idx, o in enumerate(lines):
@@ -317,7 +366,7 @@ def container_part(ctx, r, model):
         iv = il[idx] if idx < len(il) else None
         mv = ml[idx] if idx < len(ml) else None
         if iv is None:
-            ctx.oblige("container harness runs to the end of the request stream", "correspondence", False,
+            ctx.oblige("container harness runs to the end of every chunk of the request stream", "correspondence", False,
                        "stopped at line %d (%s): %s" % (idx, o, ierr[-800:]))
             break
         if si < 0 or si in seen_bad or iv == "dead":
@@ -359,7 +408,7 @@ def container_part(ctx, r, model):
         nontriv = k > 0 and len(ops) > 2
         ctx.case(nontrivial_key=("c", k, " ".join(ops)) if nontriv else None,
                  sample={"failAt": k, "ops": ops} if si in (len(CONTAINER_CORPUS), len(CONTAINER_CORPUS) + 7) else None,
-                 cls="container:" + ("bvec" if ops[0].startswith("bv") else "blocklist" if ops[0].startswith("ra") else {"l": "list", "a": "arena", "d": "deque"}.get(ops[0][0], "vec")))
+                 cls="container:" + ("bvec" if ops[0].startswith("bv") else "blocklist" if ops[0].startswith("ra") else "autoptr" if ops[0].startswith("ap") else {"l": "list", "a": "arena", "d": "deque"}.get(ops[0][0], "vec")))
     ctx.extra["container_disagreements"] = disagreements[:5]
     ctx.oblige("correspondence: XalanList<Boxed>/XalanVector<long>/XalanConstruct (real templates, failing manager) = Lean model "
                "on every op log and every refusal index", "correspondence", agree, str(disagreements[:2]))
@@ -415,7 +464,7 @@ def api_part(ctx, r, model):
             trace_ok = False; trace_detail.append("%s: trace rejected by Ledger.replayAll" % tag)
         elif (v["verdict"] == "balanced") != (c["live"] == "0" and c["foreign"] == "0" and c["double"] == "0") or v.get("live") != c["live"]:
             trace_ok = False; trace_detail.append("%s: Lean ledger says %s, harness counters %s" % (tag, v, cl[0]))
-        for exc in excs:
+        for exc in (excs if name in ("s1", "s3", "s6", "s8") else excs[:1]):
             for ph in PHASES:
                 n = int(c.get("n_" + ph, "0"))
                 if n == 0:
